@@ -419,7 +419,27 @@ def _hasattr(interp, st, args, kwargs):
 
 def _map(interp, st, args, kwargs):
     f, v = args
-    yield st, MapVal(f, resolve(st, v))
+    v = resolve(st, v)
+    items = None
+    if isinstance(v, tuple):
+        items = list(v)
+    elif isinstance(v, SV) and isinstance(v.ty, sym.Tup):
+        items = [SV(t, v.ty.proj(v.z, i)) for i, t in enumerate(v.ty.items)]
+    if items is not None and len(items) <= 4 and not hasattr(f, 'pure'):
+        # map over a short tuple (`a, b = map(f, pair)`): the applications are made here, in order (an exception of f surfaces at the
+        # map(...) expression instead of at the unpacking - the same statement in this code base)
+        def go(i, s, acc):
+            if i == len(items):
+                yield s, tuple(acc)
+                return
+            for s2, r in interp.call(s, f, [items[i]], {}):
+                if isinstance(r, Raised):
+                    yield s2, r
+                else:
+                    yield from go(i + 1, s2, acc + [r])
+        yield from go(0, st, [])
+        return
+    yield st, MapVal(f, v)
 
 
 class MapVal:
@@ -653,6 +673,8 @@ def str_method(interp, st, recv, name, args, kwargs):
         st.assume(z3.Length(r) == 2 * z3.Length(z))
         st.assume(is_hex_string(interp, r))
         yield st, SV(STR, r)
+    elif name == 'encode' and k == STR and isinstance(recv, str) and (not args or args[0] in ('utf-8', 'utf8', 'ascii')) and recv.isascii():
+        yield st, recv.encode()          # a literal: the bytes are computed (one byte per character)
     elif name == 'encode' and k == STR:
         f = interp.uf('encode_utf8', STR, BYTES)
         yield st, SV(BYTES, f(z))
